@@ -134,9 +134,11 @@ _LIBCST_SPEC = dict(parse={"parse_module"}, transform={"transform"}, write={"upd
                     neutral={"ChangeSet", "str", "relative_to"})
 _REGEX_SPEC = dict(parse={"read_bytes", "decode", "splitlines"}, transform={"_apply"}, write={"write_bytes", "write_text"},
                    diff={"create_diff"}, changes={"changes"}, neutral={"ChangeSet", "str", "relative_to"})
-_XML_SPEC = dict(parse={"parse"}, transform={"xml_transformer"}, write={"write_bytes", "write_text"},
+# the XML pipeline reads the file twice: SAX inside the try block, then read_bytes().decode("utf-8") for the diff; both belong
+# to the parse stage, so TryParse is reported only if BOTH are guarded
+_XML_SPEC = dict(parse={"parse", "read_bytes", "decode", "splitlines"}, transform={"xml_transformer"}, write={"write_bytes", "write_text"},
                  diff={"create_diff"}, changes={"changes"},
-                 neutral={"ChangeSet", "str", "relative_to", "readlines", "read_bytes", "decode", "splitlines", "seek"})
+                 neutral={"ChangeSet", "str", "relative_to", "readlines", "seek"})
 
 
 def _libcst_guards(tree, repo):
@@ -159,8 +161,8 @@ custom("regex_apply_guards", "src/codemodder/codemods/regex_transformer.py", ["C
        "regex_apply_guards", "list guard", ["IfNoChanges", "IfNotDryWrite"], _regex_guards, printer=_guards_printer,
        doc="RegexTransformerPipeline.apply: guards present (no try/except on the pinned tree)")
 custom("xml_apply_guards", "src/codemodder/codemods/xml_transformer.py", ["C04", "C10", "C19"],
-       "xml_apply_guards", "list guard", ["TryParse", "TryTransform", "IfNoChanges", "IfNotDryWrite"], _xml_guards,
-       printer=_guards_printer, doc="XMLTransformerPipeline.apply: guards present")
+       "xml_apply_guards", "list guard", ["TryTransform", "IfNoChanges", "IfNotDryWrite"], _xml_guards,
+       printer=_guards_printer, doc="XMLTransformerPipeline.apply: guards present (TryParse only if the SAX parse AND the utf-8 re-read are guarded)")
 
 
 # ---- the four manifest writers: is every file write of add_to_file inside `if not dry_run:` ? -------------------
